@@ -68,11 +68,91 @@ MulOK(ev) ==
       want == IF ev.p.acc = 1 THEN Add(Pre(O(ev, 1)), prod) ELSE prod
   IN Eq(Post(out), want)
 
+\* a 64-bit value logged as a "words" line: set of bit positions
+BitsAt(d) == ToSet(Tr[d].bits)
+PSeq(p) == p              \* permutations are logged as JSON arrays = TLA+ sequences
+
+\* data movement (C08): operand 1 = destination (possibly NULL), result possibly returned fresh
+MoveOK(ev) ==
+  LET op == ev.op  out == OutOf(ev, 1)  res == Post(out) IN
+  CASE op \in {"add", "_add"} -> Eq(res, AddSem(Pre(O(ev, 2)), Pre(O(ev, 3))))
+    [] op = "transpose" -> Eq(res, TransposeSem(Pre(O(ev, 2))))
+    [] op = "copy" -> IF HasR(ev) THEN Eq(res, Pre(O(ev, 2))) ELSE Eq(res, CopySem(Pre(O(ev, 1)), Pre(O(ev, 2))))
+    [] op = "copy_row" -> Eq(res, CopyRowSem(Pre(O(ev, 1)), ev.p.i, Pre(O(ev, 2)), ev.p.j))
+    [] op = "submatrix" -> Eq(res, SubmatrixSem(Pre(O(ev, 2)), ev.p.lr, ev.p.lc, ev.p.hr, ev.p.hc))
+    [] op = "concat" -> Eq(res, ConcatSem(Pre(O(ev, 2)), Pre(O(ev, 3))))
+    [] op = "stack" -> Eq(res, StackSem(Pre(O(ev, 2)), Pre(O(ev, 3))))
+    [] op = "extract_u" -> Eq(res, ExtractUSem(Pre(O(ev, 2))))
+    [] op = "extract_l" -> Eq(res, ExtractLSem(Pre(O(ev, 2))))
+    [] op = "set_ui" -> Eq(res, SetUiSem(Pre(O(ev, 1)), ev.p.v))
+MoveFamily == {"add", "_add", "transpose", "copy", "copy_row", "submatrix", "concat", "stack",
+               "extract_u", "extract_l", "set_ui"}
+
+\* row/column operations (C13): operand 1 = the matrix operated on in place
+RowOpsOK(ev) ==
+  LET op == ev.op  A == Pre(O(ev, 1))  res == Post(O(ev, 1))  p == ev.p IN
+  CASE op = "row_swap" -> Eq(res, RowSwapSem(A, p.a, p.b))
+    [] op = "col_swap" -> Eq(res, ColSwapSem(A, p.a, p.b))
+    [] op = "col_swap_in_rows" -> Eq(res, ColSwapInRowsSem(A, p.a, p.b, p.r0, p.r1))
+    [] op = "row_add" -> Eq(res, RowAddSem(A, p.src, p.dst))
+    [] op = "row_add_offset" -> Eq(res, RowAddOffsetSem(A, p.dst, p.src, p.off))
+    [] op = "row_clear_offset" -> Eq(res, RowClearOffsetSem(A, p.row, p.off))
+    [] op = "xor_bits" -> Eq(res, XorBitsSem(A, p.x, p.y, p.n, BitsAt(p.L_v)))
+    [] op = "clear_bits" -> Eq(res, ClearBitsSem(A, p.x, p.y, p.n))
+    [] op \in {"read_bits", "read_bits_int"} -> Eq(res, A) /\ BitsAt(p.L_got) = ReadBitsSem(A, p.x, p.y, p.n)
+    [] op = "write_bit" -> Eq(res, WriteBitSem(A, p.x, p.y, p.v))
+    [] op = "read_bit" -> Eq(res, A) /\ ev.ret = ReadBitSem(A, p.x, p.y)
+    [] op = "combine" -> Eq(res, CombineSem(A, p.cr, Pre(O(ev, 2)), p.ar, Pre(O(ev, 3)), p.br, p.sb, 64))
+    [] op = "apply_p_left" -> Eq(res, ApplyPLeftSem(A, p.P))
+    [] op = "apply_p_left_trans" -> Eq(res, ApplyPLeftTransSem(A, p.P))
+    [] op = "apply_p_right" -> Eq(res, ApplyPRightSem(A, p.P))
+    [] op = "apply_p_right_trans" -> Eq(res, ApplyPRightTransSem(A, p.P))
+    [] op = "apply_p_right_trans_tri" -> Eq(res, ApplyPRightTransTriSem(A, p.P))
+RowOpsFamily == {"row_swap", "col_swap", "col_swap_in_rows", "row_add", "row_add_offset",
+                 "row_clear_offset", "xor_bits", "clear_bits", "read_bits", "read_bits_int",
+                 "write_bit", "read_bit", "combine", "apply_p_left", "apply_p_left_trans",
+                 "apply_p_right", "apply_p_right_trans", "apply_p_right_trans_tri"}
+
+\* observers (C17)
+ObsOK(ev) ==
+  LET op == ev.op  A == Pre(O(ev, 1))  p == ev.p IN
+  CASE op = "equal" -> ev.ret = EqualSem(A, Pre(O(ev, 2)))
+    [] op = "cmp" -> ev.ret = CmpSem(A, Pre(O(ev, 2)))
+    [] op = "is_zero" -> ev.ret = IsZeroSem(A)
+    [] op = "find_pivot" -> FindPivotOK(A, p.sr, p.sc, ev.ret, p.r, p.c)
+    [] op = "first_zero_row" -> ev.ret = FirstZeroRowSem(A)
+    [] op = "density" -> ev.ret = PopCount(A)
+    [] op = "hash2" -> ev.ret = 1
+ObsFamily == {"equal", "cmp", "is_zero", "find_pivot", "first_zero_row", "density", "hash2"}
+
+\* elimination, factorisation, triangular solves, inversion, solving, kernel (C02-C07)
+ElimFamily == {"echelonize_naive", "echelonize_m4ri", "echelonize_pluq", "echelonize", "_echelonize_m4ri"}
+PleFamily == {"ple", "pluq", "_ple", "_pluq", "_ple_naive", "_pluq_naive", "_ple_russian", "_pluq_russian"}
+TrsmFamily == {"trsm_upper_right", "trsm_lower_right", "trsm_lower_left", "trsm_upper_left"}
+AlgFamily == ElimFamily \cup PleFamily \cup TrsmFamily \cup
+             {"top_echelonize_m4ri", "inv_m4ri", "invert_naive", "trtri_upper", "trtri_upper_russian",
+              "solve_left", "_solve_left", "pluq_solve_left", "_pluq_solve_left", "kernel_left_pluq"}
+AlgOK(ev) ==
+  LET op == ev.op  p == ev.p IN
+  CASE op \in ElimFamily -> EchelonOK(Pre(O(ev, 1)), Post(O(ev, 1)), ev.ret, p.full)
+    [] op = "top_echelonize_m4ri" -> TopEchelonOK(Pre(O(ev, 1)), Post(O(ev, 1)))
+    [] op \in PleFamily -> PLEOK(Pre(O(ev, 1)), Post(O(ev, 1)), p.P, p.Q, ev.ret, p.isple)
+    [] op \in TrsmFamily -> Eq(Post(O(ev, 1)), Pre(O(ev, 1))) /\ TrsmOK(op, Pre(O(ev, 1)), Pre(O(ev, 2)), Post(O(ev, 2)))
+    [] op \in {"inv_m4ri", "invert_naive"} -> InverseOK(Pre(O(ev, 2)), Post(OutOf(ev, 1)))
+    [] op \in {"trtri_upper", "trtri_upper_russian"} -> TrtriOK(Pre(O(ev, 1)), Post(O(ev, 1)))
+    [] op \in {"solve_left", "_solve_left", "pluq_solve_left", "_pluq_solve_left"} ->
+         SolveOK(Pre(O(ev, 3)), Pre(O(ev, 2)), Post(O(ev, 2)), ev.ret)
+    [] op = "kernel_left_pluq" -> KernelOK(Pre(O(ev, 2)), HasR(ev), Post(ev.o[Len(ev.o)]))
+
 ResultOK(ev) ==
   CASE ev.op \in MulFamily -> MulOK(ev)
+    [] ev.op \in AlgFamily -> AlgOK(ev)
+    [] ev.op \in MoveFamily -> MoveOK(ev)
+    [] ev.op \in RowOpsFamily -> RowOpsOK(ev)
+    [] ev.op \in ObsFamily -> ObsOK(ev)
     [] OTHER -> TRUE
 
-Known(ev) == ev.op \in MulFamily
+Known(ev) == ev.op \in MulFamily \cup MoveFamily \cup RowOpsFamily \cup ObsFamily \cup AlgFamily
 
 Checks(ev) ==
   IF ev.die = 1
